@@ -137,7 +137,7 @@ type ctl struct {
 // (that only happens for failing cases).
 func (c *ctl) finish() { c.wd.Stop() }
 
-const watchdog = 3 * time.Second
+const watchdog = 10 * time.Second
 
 func isWait(p string) bool  { return p == "los.Wait" || p == "load.Wait" }
 func isFirst(p string) bool { return p == "los.LoadOrStore" || p == "load.Load" }
